@@ -555,6 +555,9 @@ def myopic_oracle(c, r, tb, chk):
             Su, So, su, so = myopic_bounds(T, py_arg(c['h']), py_arg(c['p']), c['hT'], c['pT'], py_arg(c['c']), py_arg(c['K']),
                                            py_arg(d['mean']), py_arg(d['sd']), py_arg(c['gamma']))
     except ValueError as e:
+        if 'cost < G_t(S_underbar)' in str(e):
+            # every target cost myopic_bounds asks for is G_t(S_underbar) + (a non-negative amount): this message can only be a rounding artefact
+            return [('myopic_bounds|spurious-ValueError-cost-below-minimum', 'myopic_bounds raises %r on a valid instance (target costs are G_t(S_underbar) + K_t, + gamma_t K_{t+1}, + K_t - gamma_t K_{t+1} >= 0)' % str(e)[:120])]
         chk.count('myopic=not-applicable-ValueError'); return bad
     except Exception as e:
         return [('myopic_bounds-raises-' + exc_kind(e), str(e)[:200])]
